@@ -223,6 +223,8 @@ func (e *Engine) externCall(st *State, fn *ssa.Function, args []Value, depth int
 		return
 	}
 	e.unmodelled[name]++
+	// calls to unmodelled externals are visible to contracts as events "ext:<Name>" (arguments kept)
+	st.addTrace(TraceEv{Kind: "ext:" + fn.Name(), Args: args})
 	k(st, e.havoc(st, resultType(fn.Signature), "ext."+fn.Name()))
 }
 
@@ -497,7 +499,7 @@ func (e *Engine) lookup(st *State, fr *Frame, in *ssa.Lookup) bool {
 				}
 				st.heap[m.Cell] = o1
 				found = TTrue
-				st.addTrace(TraceEv{Kind: "maplookup.present", Text: key, Pos: e.pos(in.Pos())})
+				st.addTrace(TraceEv{Kind: "maplookup.present", Text: key, Pos: e.pos(in.Pos()), Extra: val, Typ: mt.Elem()})
 			} else if obj.Fresh && allKeysConstDistinct(e, obj, idx) {
 				val, found = e.zeroOf(mt.Elem()), TFalse
 			} else {
